@@ -1801,6 +1801,36 @@ def family_f1(rng):
             tags=T + ("regular", "defaults"),
         )
     )
+    # parameter names that are also names the generated code uses for its own variables
+    clash = Iface(
+        "clash",
+        [
+            Handler("exec", "clash_exec", [Arg("msg", "String"), Arg("contract", "u32"), Arg("env", "bool")]),
+            Handler("query", "clash_query", [Arg("msg", "u32"), Arg("querier", "String"), Arg("field1", "u8")], ret="String"),
+            Handler("sudo", "clash_sudo", [Arg("info", "String"), Arg("deps", "u32")]),
+        ],
+    )
+    lib["clash"] = clash
+    cs.append(
+        Contract(
+            "pw",
+            "f1",
+            [
+                Handler("instantiate", "instantiate", [Arg("msg", "String"), Arg("admin", "u64"), Arg("label", "String")]),
+                Handler("migrate", "migrate", [Arg("sender", "String"), Arg("msg", "u8")]),
+                Handler("exec", "go"),
+                Handler("exec", "collide", [Arg("msg", "String"), Arg("contract", "u32"), Arg("field1", "u8"), Arg("env", "String"), Arg("info", "bool")]),
+                Handler("exec", "more", [Arg("deps", "u32"), Arg("sender", "Addr"), Arg("funds", "Vec<Coin>"), Arg("val", "String"), Arg("recv_msg_name", "String")]),
+                Handler("query", "probe", [Arg("x", "u32")], ret="u64", failarg=True),
+                Handler("query", "who", [Arg("msg", "String"), Arg("contract", "Addr"), Arg("querier", "u8")], ret="String"),
+                Handler("sudo", "nudge", [Arg("n", "u64")]),
+                Handler("sudo", "shake", [Arg("msg", "u32"), Arg("field2", "String"), Arg("err", "bool")]),
+            ],
+            uses=[Use(clash)],
+            err="own",
+            tags=T + ("regular",),
+        )
+    )
     # a contract value with in-memory state: the deployment that is handed a value must run
     # the handlers on it, the entry points on what `new()` builds
     cs.append(
